@@ -63,7 +63,7 @@ def units(tier):
     seqstate = {}
 
     def seq_inv(lc):
-        i = lc.env.locals["i"]
+        i = lc.get("counter")
         conds = [i >= 1, i <= 255]
         if lc.phase == "keep":
             em = seqstate["emitted"]
@@ -75,7 +75,7 @@ def units(tier):
         return And(conds)
 
     def seq_havoc(lc):
-        lc.env.locals["i"] = lc.ctx.fresh_int("i", None, None)
+        lc.set("counter", lc.ctx.fresh_int("i", None, None))
         seqstate["emitted"] = []
 
     def r_seqnum(ctx, interp, fn):
@@ -89,7 +89,8 @@ def units(tier):
             interp.yield_handler = old
         ctx.fail("generator-never-ends", detail="the sequence-number generator returned")
     unit("tridonic-hid/_seqnum", r_seqnum,
-         loops={("dali.driver.hid:tridonic._seqnum", 0): LoopSpec("seq", seq_inv, seq_havoc, variant=None)})
+         loops={("dali.driver.hid:tridonic._seqnum", 0): LoopSpec("seq", seq_inv, seq_havoc, variant=None,
+                                                                          roles={"counter": ("i", lambda v: True)})})
 
     # ------------------------------------------------------------ Tridonic HID: bytes written by _send_raw
     for cls, bits in [(c, 16) for c in SAMPLE_16] + [(c, 24) for c in SAMPLE_24]:
